@@ -135,3 +135,29 @@ def assoc_remove_last(prop="C08"):
                                                                        batches(v1) == z3.SubSeq(batches(v0), 0, z3.Length(batches(v0)) - 1)))
     c.raises("indexerror_iff_empty", lambda v0, exc, v1: z3.And(z3.BoolVal(exc == "IndexError"), z3.Length(batches(v0)) == 0))
     return c
+
+
+def associate_order(prop="C08", replay=None):
+    """ASSOCIATE branch of the statement dispatch (FortranContainer.__init__): the selectors of an ASSOCIATE statement are evaluated in the *enclosing* scope - the associate names the
+    statement introduces are not visible in its own selectors (F2018 11.1.3.3).  So the scan of the statement for procedure references (`self._add_procedure_calls(line,
+    associations)`) comes before its associations are registered (`associations.add_batch(..)`)."""
+    import ast
+    from harness import loader
+    from harness.core import OR, PROVED, REFUTED, UNKNOWN
+    oid = f"{prop}.S.FortranContainer.__init__.associate_selectors_are_scanned_before_the_names_are_registered"
+    fn = loader.find_def("ford.sourceform", "FortranContainer.__init__")
+    br = [n for n in ast.walk(fn) if isinstance(n, ast.If) and "ASSOCIATE_RE.match" in ast.unparse(n.test) and "END" not in ast.unparse(n.test).upper().replace("ASSOCIATE_RE", "")]
+    if len(br) != 1:
+        return [OR(id=oid, status=UNKNOWN, kind="S", target="ford.sourceform.FortranContainer.__init__", detail=f"ASSOCIATE branch: {len(br)} matches")]
+    scan = [i for i, st in enumerate(br[0].body) if "_add_procedure_calls(" in ast.unparse(st)]
+    reg = [i for i, st in enumerate(br[0].body) if ".add_batch(" in ast.unparse(st)]
+    if len(scan) != 1 or len(reg) != 1:
+        return [OR(id=oid, status=UNKNOWN, kind="S", target="ford.sourceform.FortranContainer.__init__", detail=f"scan statements {scan}, registrations {reg}")]
+    ok = scan[0] < reg[0]
+    r = OR(id=oid, status=PROVED if ok else REFUTED, kind="S", role="pre", backend="ast", target="ford.sourceform.FortranContainer.__init__",
+           desc="in the ASSOCIATE branch `self._add_procedure_calls(line, associations)` stands before `associations.add_batch(..)`")
+    if not ok:
+        r.detail = "a selector that starts with a name the same statement re-defines (`associate (box => box%get())`) is rewritten with the new association: the call is lost or lands elsewhere"
+        if replay:
+            r.replay = replay()
+    return [r]
